@@ -510,6 +510,42 @@ pub fn literals() -> Vec<Lit> {
             address: true,
         });
     }
+    // ---- one underscore between two adjacent digits, at every such position of every literal that has a value
+    // (B.1.2.1: integer = digit {['_'] digit}; every numeric part of a real, duration, date, time or address is an integer)
+    let mut extra = vec![];
+    for l in &out {
+        if l.label.starts_with("int/") || l.label.starts_with("bits/") || l.label.contains("underscore") || !matches!(l.expect, Expect::Value(_)) {
+            continue;
+        }
+        // only literals that are read correctly are varied (a failing original is reported on its own)
+        if judge(l).is_some() {
+            continue;
+        }
+        let class = l.label.split('/').next().unwrap_or("literal").to_string();
+        for (pi, piece) in l.pieces.iter().enumerate() {
+            if piece.starts_with('\'') || piece.starts_with('"') {
+                continue;
+            }
+            let b = piece.as_bytes();
+            for i in 1..b.len() {
+                if b[i - 1].is_ascii_digit() && b[i].is_ascii_digit() {
+                    let mut pieces = l.pieces.clone();
+                    pieces[pi] = format!("{}_{}", &piece[..i], &piece[i..]);
+                    extra.push(Lit { label: format!("{}/underscore-between-digits", class), type_text: l.type_text, pieces, expect: l.expect.clone(), address: l.address });
+                }
+            }
+        }
+    }
+    // the same literal text can arise from several originals
+    let mut seen = std::collections::HashSet::new();
+    for l in &out {
+        seen.insert(l.pieces.join(""));
+    }
+    for l in extra {
+        if seen.insert(l.pieces.join("")) {
+            out.push(l);
+        }
+    }
     out
 }
 
